@@ -97,8 +97,8 @@ PROPS = {
         explanation='context-stack balance of the XPath evaluator: all 19 eval_* functions of xpath/src/eval/mod.rs and the six push/pop/get methods of model::Context are extracted and each is verified against the contracts of its callees: when a function returns, with Ok or with Err, the size and position stacks and the namespace bindings of the caller\'s context are exactly what they were on entry; so a query that fails inside a predicate cannot change the answer of a later query on the same context',
     ),
     'C07': dict(
-        standin_ops=['xpath.query.order', 'xpath.corpus_order', 'xpath.union_algebra'],
-        quick_grids=['xpath.corpus_order', 'xpath.union_algebra'],
+        standin_ops=['xpath.query.order', 'xpath.corpus_order', 'xpath.union_algebra', 'dom.edit_order1'],
+        quick_grids=['xpath.corpus_order', 'xpath.union_algebra', 'dom.edit_order0'],
         verus_units=['eval_ctx'],
         level='proof',
         trusted_base=TRUSTED_VERUS,
